@@ -14,6 +14,7 @@ package main
 
 import (
 	"bufio"
+	"crypto/sha256"
 	"fmt"
 	"io"
 	"net"
@@ -146,6 +147,7 @@ type rawReq struct {
 	Target  string
 	Host    string
 	XFP     []string // X-Forwarded-Proto lines
+	XFH     []string // X-Forwarded-Host lines (client-controlled noise: nothing in a response may depend on them)
 	Cookies []string // "name=value"
 	XHR     bool
 	Extra   []line // further header lines
@@ -180,6 +182,9 @@ func doRaw(addr string, r rawReq) obsResp {
 	}
 	for _, v := range r.XFP {
 		fmt.Fprintf(&w, "X-Forwarded-Proto: %s\r\n", v)
+	}
+	for _, v := range r.XFH {
+		fmt.Fprintf(&w, "X-Forwarded-Host: %s\r\n", v)
 	}
 	if len(r.Cookies) > 0 {
 		fmt.Fprintf(&w, "Cookie: %s\r\n", strings.Join(r.Cookies, "; "))
@@ -356,7 +361,9 @@ func coqCookies(h http.Header) (string, []interface{}) {
 	var js []interface{}
 	for _, ln := range h["Set-Cookie"] {
 		cs := (&http.Response{Header: http.Header{"Set-Cookie": {ln}}}).Cookies()
-		if len(cs) == 1 && (cs[0].Name == cookieName || cs[0].Name == cookieName+"_csrf") {
+		// every cookie in the proxy's name space (the session cookie name itself or anything the code
+		// derives from it: _csrf, numbered continuations, ...) is judged attribute by attribute
+		if len(cs) == 1 && (cs[0].Name == cookieName || strings.HasPrefix(cs[0].Name, cookieName+"_")) {
 			ck := cs[0]
 			dom := "None"
 			if ck.Domain != "" {
@@ -385,6 +392,7 @@ type scenario struct {
 	User    bool     // Authenticate succeeded (sets the logging header)
 	Script  script   // upstream answer (forwarded scenarios)
 	Req     rawReq
+	Big     bool // corpus only: present a large (many groups) session that is due for revalidation
 }
 
 func goodSession(host string) *sessions.SessionState {
@@ -399,6 +407,21 @@ type reqShape struct {
 	Host   string
 	Target string
 	XFP    []string
+	XFH    []string // X-Forwarded-Host lines: not part of the model's request (the host is Host / the absolute-form authority)
+}
+
+// a session whose sealed value is far beyond what fits one cookie (4096 bytes): many long group names and
+// long opaque tokens (the value is gzipped before sealing, so the text is incompressible; revalidation
+// replaces the groups by the provider's answer, the tokens stay)
+func bigSession(host string, groups int) *sessions.SessionState {
+	s := goodSession(host)
+	for i := 0; i < groups; i++ {
+		h := sha256.Sum256([]byte{byte(i), byte(i >> 8)})
+		s.Groups = append(s.Groups, fmt.Sprintf("group-%04d-%x@example.com", i, h))
+		s.AccessToken += fmt.Sprintf("%x", h)
+		s.RefreshToken += fmt.Sprintf("%x", h[:16])
+	}
+	return s
 }
 
 // the request as the handler sees it (net/http readRequest: absolute-form overrides Host)
@@ -427,6 +450,7 @@ func runCase(w *world, sc scenario, rs reqShape, idx int) c.Case {
 	req.Host = rs.Host
 	req.Target = rs.Target
 	req.XFP = rs.XFP
+	req.XFH = rs.XFH
 	if req.Method == "" {
 		req.Method = rs.Method
 	}
@@ -481,7 +505,7 @@ func emitCase(w *world, sc scenario, rs reqShape, req rawReq, o obsResp, calls i
 		}
 	}
 	return c.Case{Coq: coq, JSON: map[string]interface{}{
-		"kind": "proxy", "scenario": sc.Name, "config": w.cfg, "request": map[string]interface{}{"method": req.Method, "host": rs.Host, "target": rs.Target, "x_forwarded_proto": rs.XFP},
+		"kind": "proxy", "scenario": sc.Name, "config": w.cfg, "request": map[string]interface{}{"method": req.Method, "host": rs.Host, "target": rs.Target, "x_forwarded_proto": rs.XFP, "x_forwarded_host": rs.XFH},
 		"upstream": sc.Script, "responded": o.Responded, "status": o.Status, "upstream_called": calls > 0,
 		"headers": watched, "set_cookie": ckJSON, "client_trailer": trl, "upstreams_in_deployment": len(w.ups)}}
 }
@@ -504,6 +528,10 @@ var targetPool = []string{
 // the code that exists redirects it), blank entries, two header lines (Header.Get reads the first)
 var xfpPool = [][]string{nil, nil, {"https"}, {"https"}, {"http"}, {"HTTPS"}, {"https,http"}, {"https, http"}, {"http,https"},
 	{"http, https"}, {", https"}, {"https,"}, {"https, https"}, {""}, {"http", "https"}, {"https", "http"}, {"httpss"}, {"http, http, https"}}
+
+// client-controlled X-Forwarded-Host values: other hosts, with port, userinfo / path tricks, blank, two lines
+var xfhPool = [][]string{{"evil.test"}, {"evil.test:8443"}, {"app.example.test.evil.test"}, {"evil.test/x"}, {"user@evil.test"},
+	{"EVIL.test"}, {""}, {"evil.test", "app.example.test"}, {"app.example.test", "evil.test"}, {"evil.test, app.example.test"}, {"127.0.0.1:1"}}
 
 var protectedLines = []line{
 	{"X-Frame-Options", "ALLOWALL"}, {"x-frame-options", "DENY"}, {"X-FRAME-OPTIONS", ""}, {"X-Frame-Options", "SAMEORIGIN"},
@@ -621,6 +649,9 @@ func genScenario(r *c.Rng, w *world, host string) (scenario, string) {
 		return scenario{Name: "forwarded", User: true, Script: genScript(r), Req: rawReq{Cookies: []string{sessCookie(w, goodSession(host))}}}, ""
 	case k == 9: // forwarded after a revalidation (SaveSession sets the session cookie first)
 		s := goodSession(host)
+		if r.Chance(0.5) { // a session far too large for one cookie
+			s = bigSession(host, 60+r.Intn(200))
+		}
 		s.ValidDeadline = time.Now().Add(-2 * time.Minute)
 		return scenario{Name: "forwarded-after-revalidation", User: true, Cookies: []string{ckS(false)}, Script: genScript(r),
 			Req: rawReq{Cookies: []string{sessCookie(w, s)}}}, ""
@@ -669,6 +700,7 @@ type shapeSeed struct {
 	Method string
 	Host string
 	XFP  []string
+	XFH  []string
 	Abs  string // "" or a scheme: absolute-form request target (URL.Scheme set, URL.Host wins over Host)
 }
 
@@ -677,6 +709,9 @@ func genSeed(r *c.Rng, w *world) shapeSeed {
 	ss := shapeSeed{Host: r.Pick(w.hosts), XFP: xfpPool[r.Intn(len(xfpPool))]}
 	if secure && r.Chance(0.6) { // keep most cases of a secure-cookie world past the https redirect
 		ss.XFP = []string{"https"}
+	}
+	if r.Chance(0.5) {
+		ss.XFH = xfhPool[r.Intn(len(xfhPool))]
 	}
 	if r.Chance(0.04) {
 		ss.Abs = []string{"http", "https", "HTTPS"}[r.Intn(3)]
@@ -691,7 +726,7 @@ func (ss shapeSeed) shape(target string) reqShape {
 	if ss.Abs != "" {
 		target = ss.Abs + "://" + ss.Host + target
 	}
-	return reqShape{Method: ss.Method, Host: ss.Host, Target: target, XFP: ss.XFP}
+	return reqShape{Method: ss.Method, Host: ss.Host, Target: target, XFP: ss.XFP, XFH: ss.XFH}
 }
 
 func genTarget(r *c.Rng) string {
@@ -855,6 +890,11 @@ func main() {
 		if sc.Class == "" || sc.User {
 			_, _, host, _, _, _ := cc.R.model()
 			sc.Req.Cookies = []string{sessCookie(w, goodSession(host))}
+			if sc.Big {
+				s := bigSession(host, 200)
+				s.ValidDeadline = time.Now().Add(-2 * time.Minute)
+				sc.Req.Cookies = []string{sessCookie(w, s)}
+			}
 		}
 		cases = append(cases, runCase(w, sc, cc.R, len(cases)))
 		w.close()
